@@ -1276,39 +1276,45 @@ def metric_query(ctx, name, threads, slack, timeout_s):
         import replay, struct, numpy as np
         rec["trace"] = b.decode_schedule(model)
         rec["model_final"] = {"count": str(model.eval(fcount, model_completion=True)), "avg_word": str(model.eval(favg, model_completion=True))}
-        # native replay with REAL floats: measurements 1.0, 2.0, 4.0 ... (distinct, exactly representable)
-        fl = {}
-        k = 0
-        progs = []
-        for t, prog in enumerate(threads):
-            p2 = []
-            for j, op in enumerate(prog):
-                if op == "inc":
-                    x = float(3 ** k); k += 1
-                    p2.append("inc:%d" % struct.unpack("<I", struct.pack("<f", x))[0]); fl[(t, j)] = x
-                else: p2.append("probe")
-            progs.append(p2)
-        xs = list(fl.values())
-        def fold(order):
-            avg = np.float32(0.0); out = [np.float32(0.0)]
-            for j, x in enumerate(order):
-                c = np.float32(j)
-                avg = (c / (np.float32(1.0) + c)) * avg + np.float32(x) / (np.float32(1.0) + c)
-                out.append(avg)
-            return out
-        folds = [fold(p) for p in _it.permutations(xs)]
-        def symptom(h):
-            if h["panics"]: return "panic: " + h["panics"][0]
-            if h["stuck"] or h["timeout"]: return None
-            pr = [e for e in h["events"] if e["op"] == "probe"]
-            fin = [e for e in pr if e["thread"] == len(threads)]
-            for e in pr:
-                c = int(e["res"][1]); a = np.uint32(int(e["res"][2])).view(np.float32)
-                if not any(c < len(f) and f[c] == a for f in folds): return "probe returned count %d with average %r, which is not the average of any %d of the recorded measurements %s" % (c, float(a), c, xs)
-            if fin and int(fin[-1]["res"][1]) != len(xs): return "final count %s != number of recorded measurements %d" % (fin[-1]["res"][1], len(xs))
-            return None
+        # native replay with REAL floats (the model's float values are abstract): first with distinct, exactly representable
+        # measurements 1, 3, 9 ...; then with coincidence-prone ones (the -1.0 "no timing" sentinel everywhere except one 1000.0),
+        # because a defect may depend on an average that equals the next measurement bit for bit
+        n_inc = sum(1 for prog in threads for op in prog if op == "inc")
+        input_sets = [[float(3 ** i) for i in range(n_inc)], [-1.0] * (n_inc - 1) + [1000.0], [1000.0] + [-1.0] * (n_inc - 1)]
         segs = replay.segments_from_trace(rec["trace"])
-        found, why, tried = replay.search("Metric", 2, [0], [], progs, ["probe"], segs, symptom)
+        found, why, tried = None, "", 0
+        for xs_in in input_sets:
+            fl = {}; k = 0; progs = []
+            for t, prog in enumerate(threads):
+                p2 = []
+                for j, op in enumerate(prog):
+                    if op == "inc":
+                        x = xs_in[k]; k += 1
+                        p2.append("inc:%d" % struct.unpack("<I", struct.pack("<f", x))[0]); fl[(t, j)] = x
+                    else: p2.append("probe")
+                progs.append(p2)
+            xs = list(fl.values())
+            def fold(order):
+                avg = np.float32(0.0); out = [np.float32(0.0)]
+                for j, x in enumerate(order):
+                    c = np.float32(j)
+                    avg = (c / (np.float32(1.0) + c)) * avg + np.float32(x) / (np.float32(1.0) + c)
+                    out.append(avg)
+                return out
+            folds = [fold(p_) for p_ in set(_it.permutations(xs))]
+            def symptom(h, folds=folds, xs=xs):
+                if h["panics"]: return "panic: " + h["panics"][0]
+                if h["stuck"] or h["timeout"]: return None
+                pr = [e for e in h["events"] if e["op"] == "probe"]
+                fin = [e for e in pr if e["thread"] == len(threads)]
+                for e in pr:
+                    c = int(e["res"][1]); a_ = np.uint32(int(e["res"][2])).view(np.float32)
+                    if not any(c < len(f) and f[c] == a_ for f in folds): return "probe returned count %d with average %r, which is not the average of any %d of the recorded measurements %s" % (c, float(a_), c, xs)
+                if fin and int(fin[-1]["res"][1]) != len(xs): return "final count %s != number of recorded measurements %d" % (fin[-1]["res"][1], len(xs))
+                return None
+            f_, why, t_ = replay.search("Metric", 2, [0], [], progs, ["probe"], segs, symptom)
+            tried += t_
+            if f_: found = f_; break
         rec["native_runs"] = tried
         if found: rec.update(verdict="violation", symptom=found["symptom"], replayed=True, native_history=found["history"]["events"], native_segments=found["segments"])
         else: rec.update(verdict="inconclusive", why="model counterexample (final %s) did not reproduce natively: %s" % (rec["model_final"], why))
